@@ -693,8 +693,8 @@ Definition do_open (w : world) (slot mode : Z) : option (world * list obs) :=
   if negb (dk_exists d) then
     Some (set_hints (set_ids w (zupd (w_ids w) slot (-1))) no_align, same_all w NC_ENOENT [TSkip])
   else
-    (* headers of the files used here are far below 1 MiB; do not enumerate sparse data *)
-    match decode (dk_read d 0 (Z.min (dk_size d) 1048576)) with
+    (* headers of the files used here are far below 64 KiB; do not enumerate sparse data *)
+    match decode (dk_read d 0 (Z.min (dk_size d) 65536)) with
     | None => None
     | Some dc =>
         let h := dc_hdr dc in
